@@ -116,6 +116,10 @@ def rule_set(draw):
         rules.append({'name': f'R{n + 1}', 'match': ['and', [['match', 'contains', None, draw(st.sampled_from(['UBER', 'EATS', 'INN']))],
                                                              draw(st.sampled_from(TRUE_CONSTRAINTS['amount'] + TRUE_CONSTRAINTS['source']))]],
                       'category': f'Cat{n + 1}', 'subcategory': '', 'merchant': None, 'priority': None, 'tags': [], 'lets': [], 'fields': []})
+    if len(rules) >= 2 and draw(st.integers(0, 3)) == 0:
+        # rule names are display names, not identities: two rules may share one (Costco fuel / Costco groceries)
+        i_, j_ = draw(st.permutations(list(range(len(rules)))))[:2]
+        rules[j_] = dict(rules[j_], name=rules[i_]['name'])
     vars_ = []
     if draw(st.integers(0, 3)) == 0:
         # a rule's let: shadows a top-level variable FOR THAT RULE ONLY: the rule reading the variable sees the top-level value wherever it stands in the file
